@@ -73,6 +73,10 @@ def gen_cases(tier, seed):
         for ef in (False, True):
             cases.append({"kind": "transform", "cfg": cfg, "hist": "perturbed", "seed": env.subseed(seed, "c15t", ni), "eval_first": ef,
                           "world": "f64", "cost": 1})
+    # constructors called with their DEFAULT (mutable) arguments, several times in one process
+    for i in range(2):
+        cases.append({"kind": "umnn_defaults", "which": ["ar", "coupling"][i], "seed": env.subseed(seed, "c15u", i), "world": "f32",
+                      "hist": "fresh", "cfg": {"fam": "umnn_defaults"}, "cost": 4})
     for ni, cfg in enumerate(nested):
         for hi, h in enumerate(HIST):
             for ef in (False, True):
@@ -135,7 +139,55 @@ def do(m, op, x, c, seed):
         return m.sample_and_log_prob(3, c)
 
 
+def run_umnn_defaults(case):
+    from nflows import transforms as T
+    r = R(case)
+    seed = case["seed"]
+    shared_layers = [20, 20]
+
+    def mk():
+        if case["which"] == "ar":
+            return T.MaskedUMNNAutoregressiveTransform(features=3, hidden_features=8)
+        return T.UMNNCouplingTransform(mask=[1, 0, 1], integrand_net_layers=shared_layers, cond_size=4, nb_steps=20,
+                                       solver="CCParallel", transform_net_create_fn=lambda i, o: zoo.PlainNet(i, o))
+    label = "umnn_%s(default arguments)" % case["which"]
+    try:
+        torch.manual_seed(seed)
+        models = [mk() for _ in range(3)]
+    except Exception as e:
+        r.inconc("construction failed %r" % (e,))
+        return r.done()
+    r.ev()
+    r.count("models_reloaded")
+    keys = [sorted(m.state_dict().keys()) for m in models]
+    shapes = [[tuple(v.shape) for _, v in sorted(m.state_dict().items())] for m in models]
+    if keys[0] != keys[1] or keys[1] != keys[2] or shapes[0] != shapes[2]:
+        r.viol("keys", "%s state-dict key sets differ between two instances of the same configuration" % label,
+               n_keys=[len(k) for k in keys])
+        return r.done()
+    try:
+        models[2].load_state_dict(models[0].state_dict(), strict=True)
+    except Exception as e:
+        r.viol("load", "%s load_state_dict(strict) of its own kind's state dict fails" % label, exc=repr(e)[:300])
+        return r.done()
+    x = torch.randn(4, 3)
+    for m in (models[0], models[2]):
+        m.eval()
+    with torch.no_grad():
+        a, b = models[0](x), models[2](x)
+    r.count("bitwise_comparisons", 2)
+    r.count("byteio_roundtrips")
+    if not (ww.same_bits(a[0], b[0]) and ww.same_bits(a[1], b[1])):
+        r.viol("not_reproduced", "%s.forward differs between the original and the reloaded model" % label)
+    else:
+        r.cell(label, "fresh", "forward")
+    r.sample({"subject": label, "instances": 3})
+    return r.done()
+
+
 def run_case(case):
+    if case["kind"] == "umnn_defaults":
+        return run_umnn_defaults(case)
     r = R(case)
     kind, cfg, seed = case["kind"], case["cfg"], case["seed"]
     label = cfg.get("fam") or ("flow_" + cfg["flow"] if kind == "flow" else "dist_" + cfg["dist"])
